@@ -53,9 +53,44 @@ def env_wire(env):
     return "|".join([",".join("x" + hx(s) for s in env["strings"]), env["formats"] or "-",
                      "1" if env["is1904"] else "0"])
 
+NS_REL_DOC = "http://schemas.openxmlformats.org/officeDocument/2006/relationships"
+NS_REL_STRICT = "http://purl.oclc.org/ooxml/officeDocument/relationships"
+NS_REL_MS = "http://schemas.microsoft.com/office/2006/relationships"
+# the relationship types that name a sheet part (the kind of the sheet comes from these, not from
+# the folder of the part)
+SHEET_REL_TYPES = [NS_REL_DOC + "/worksheet", NS_REL_STRICT + "/worksheet",
+                   NS_REL_DOC + "/chartsheet", NS_REL_STRICT + "/chartsheet",
+                   NS_REL_DOC + "/dialogsheet", NS_REL_STRICT + "/dialogsheet",
+                   NS_REL_MS + "/xlMacrosheet", NS_REL_MS + "/xlIntlMacrosheet"]
+CONVENTIONAL_FOLDERS = ["worksheets", "chartsheets", "dialogsheets", "macrosheets"]
+
+
+def gen_part_name(rng, i):
+    """a part name relative to xl/ for sheet i; OPC part names are free, so about half of the draws
+    leave the folder Excel uses: no folder, another folder, nested folders, the folder of another
+    kind of sheet"""
+    r = rng.random()
+    if r < 0.40:
+        return "worksheets/sheet%d.xml" % (i + 1)
+    if r < 0.48:
+        return "worksheets/Tab_%d.xml" % i
+    if r < 0.58:
+        return "sheet%d.xml" % (i + 1)
+    if r < 0.68:
+        return "ws/a%d.xml" % i
+    if r < 0.78:
+        return "data/s%d.xml" % i
+    if r < 0.88:
+        return "%s/sheet%d.xml" % (rng.choice(CONVENTIONAL_FOLDERS[1:]), i + 1)
+    if r < 0.94:
+        return "a/b/c/%d.xml" % i
+    return rng.choice(["Tabelle%d.xml", "worksheets%d.xml", "w s/Sheet %d.xml"]) % i
+
+
 def wb_wire(wb):
     sheets = ";".join("~".join([hx(s["name"]), hx(s["rid"]), hx(s["part"]), str(s["spelling"]),
-                                attrs_wire(s.get("extra", []))]) for s in wb["sheets"])
+                                attrs_wire(s.get("extra", [])),
+                                hx(s.get("type", SHEET_REL_TYPES[0])) or "-"]) for s in wb["sheets"])
     return "|".join([hx(wb["pfx"]) if wb.get("pfx") else "-", hx(wb["relpfx"]) if wb.get("relpfx") else "-",
                      hx(wb["relspfx"]) if wb.get("relspfx") else "-",
                      "-" if wb.get("date1904") is None else "v" + hx(wb["date1904"]), sheets or "-"])
